@@ -20,7 +20,7 @@ def producer_setup(interp, path):
         "_collection": coll, "_descs": Opaque("descs", "descs"), "_combined_wcs": Opaque("wcs", "combined_wcs"),
         "_n_todo": z3.Int(fresh_name("n_todo"))})
     par = z3.Int(fresh_name("parallel"))
-    path.assume(par >= 2)
+    path.assume(par >= 1)
     return {"self": me, "pio": _mt._pio_inst(interp._case), "reproject_function": Opaque("callback", "reproject_function"),
             "cli_progress": False, "parallel": par, "kwargs": PyDict({})}
 
